@@ -18,6 +18,15 @@ from __future__ import annotations
 import facto_ast as fa
 
 
+# what a content source may report (a per-program universe; values are universally quantified)
+CONTENT = {
+    "steel-chest": ["iron-plate", "copper-plate", "steel-plate"],
+    "iron-chest": ["iron-plate", "copper-plate", "steel-plate"],
+    "wooden-chest": ["iron-plate", "copper-plate", "steel-plate"],
+    "storage-tank": ["water", "crude-oil"],
+}
+
+
 def range_values(a, b, s):
     """the documented iteration sequence: a, a+s, ... strictly before b in the direction of s
     (this is `is_range` of coq/Proofs/ForIterProofs.v); the documented default step is 1, so a
@@ -41,6 +50,9 @@ def pp_expr(e, ctx=0):
         return e[1]
     if k == "read":
         return f"{e[1]}.read()"
+    if k == "outsel":
+        return f'{e[1]}.output["{e[2]}"]'
+
     if k == "call":
         return f"{e[1]}(" + ", ".join(pp_expr(a) for a in e[2]) + ")"
     # reuse the flat printer by temporarily mapping refs to names
@@ -57,7 +69,7 @@ def _to_named(e):
         return e
     if e[0] == "ref":
         return ("var", e[1])
-    if e[0] in ("call", "read"):
+    if e[0] in ("call", "read", "outsel"):
         return ("var", pp_expr(e))
     return tuple(_to_named(x) for x in e)
 
@@ -146,6 +158,19 @@ class Elab:
         if k == "read":
             m = self.lookup(e[1])[1]
             return ("var", m["im"])
+        if k == "outsel":
+            # entity.output["sig"]: the contents the entity reports range over all values; every textual
+            # use of one entity's output reads the same contents (counted once per use)
+            ent = self.entities[self.lookup(e[1])[1]]
+            if "source_decl" not in ent:
+                content = []
+                for sg in CONTENT.get(ent["proto"], []):
+                    self.flat.append(("in", f"_c_{ent['name']}_{sg}", sg, 0))
+                    content.append((sg, len(self.flat) - 1))
+                self.flat.append(("source", f"_src_{ent['name']}", content))
+                ent["source_decl"] = len(self.flat) - 1
+                ent["content"] = content
+            return ("sel", ent["source_decl"], e[2])
         if k == "int":
             return e
         return tuple(self.expr(x) if isinstance(x, tuple) else x for x in e)
